@@ -199,6 +199,15 @@ func c09Digest(s *SugarDB, db int, k string) string {
 	return out
 }
 
+// c09Token: the symbolic operand. In the thorough tier files are cut at every byte offset, so the
+// operand is three separate symbolic bytes rather than one opaque three-byte token.
+func c09Token() string {
+	if vr.Tier() == 1 {
+		return gBytes("v", 3)
+	}
+	return vr.TokN("v", 3)
+}
+
 // c09Scenario: [first write] [optional earlier rewrite] [second write on another key] REWRITEAOF
 // with a crash before its k-th file operation (or none), restart, compare.
 func c09Scenario(tag string, kind int, earlier bool, crash bool) {
@@ -206,15 +215,18 @@ func c09Scenario(tag string, kind int, earlier bool, crash bool) {
 	logF := &c09File{disk: disk, appendMode: true}
 	preF := &c09File{disk: disk}
 	s := verifAOFServer(logF, preF, "always")
-	k1, k2 := "k1", "k2"
-	v := vr.TokN("v", 3)
+	// the client works in database 0 or in another one
+	dbChoice := []int{0, 5}
+	db := dbChoice[vr.Choose("db", 2)]
+	_ = s.SelectDB(db)
+	k1, k2, k3 := "k1", "k2", "k3"
+	v := c09Token()
 	c09Write(s, kind, k1, v)
 	if earlier {
 		r := c05Run(s, "REWRITEAOF")
 		vr.Assert(r == "+OK\r\n", tag+".earlier_rewrite_replies_ok")
 	}
 	c09Write(s, kind, k2, v)
-	want1, want2 := c09Digest(s, 0, k1), c09Digest(s, 0, k2)
 	// the rewrite under test
 	base := disk.ops
 	if crash {
@@ -243,11 +255,16 @@ func c09Scenario(tag string, kind int, earlier bool, crash bool) {
 		vr.Assert(reply == "+OK\r\n", tag+".rewrite_replies_ok")
 	}
 	disk.crashAt = 0
+	if !crashed && c09Kinds()[kind] != "float_inf" {
+		// life goes on after the rewrite: a further acknowledged write in the same database
+		c05Run(s, "SET", k3, "after")
+	}
+	dbs := []int{0, 5}
+	want := c07View(s, dbs, k1, k2, k3)
 	// restart on what is on disk
 	s2 := verifAOFServer(logF.image("log"), preF.image("preamble"), "always")
 	_ = s2.aofEngine.Restore() // start-up only logs a restore error; what counts is the dataset served
-	got1, got2 := c09Digest(s2, 0, k1), c09Digest(s2, 0, k2)
-	vr.Assert(got1 == want1 && got2 == want2, tag+".restore_equals_acknowledged_dataset")
+	vr.Assert(c07View(s2, dbs, k1, k2, k3) == want, tag+".restore_equals_acknowledged_dataset")
 	vr.Reach("end")
 }
 
